@@ -290,8 +290,8 @@ def run_variant(u, tier, defs, label):
             else:
                 raise Undecided("obligation %s has status %s" % (x["property"], x["status"]))
         # census
-        if (u.get("enforce") or u.get("enforce_rec")) and not r["classes"].get("postcondition"):
-            raise Undecided("census: no postcondition obligation generated")
+        if (u.get("enforce") or u.get("enforce_rec")) and not (r["classes"].get("postcondition") or r["classes"].get("assigns")):
+            raise Undecided("census: no postcondition / frame obligation generated")
         if u.get("loops") and not u.get("no_loop_census"):
             for c in ("loop_invariant_base", "loop_invariant_step"):
                 if not r["classes"].get(c):
